@@ -33,6 +33,9 @@ type StoreCfg struct {
 	// matching next offset) although more remain - legal for an EventStore, whose limit is a maximum,
 	// and what a store that pages by bytes does.
 	ShortReads bool `json:"short_reads,omitempty"`
+	// Instr: the store is opened with its optional instrumentation (sqlite: metrics hook, logger, a short busy
+	// timeout, and no auto-migration when the file was already migrated by an earlier open; durable-streams: logger)
+	Instr bool `json:"instr,omitempty"`
 }
 
 func (c StoreCfg) String() string {
@@ -49,6 +52,9 @@ func (c StoreCfg) String() string {
 	if c.InMemory {
 		s += "+:memory:"
 	}
+	if c.Instr {
+		s += "+instr"
+	}
 	if c.ShortReads {
 		s += "+shortreads"
 	}
@@ -56,7 +62,24 @@ func (c StoreCfg) String() string {
 }
 
 // storeEnv owns the real resources of one run (temp dir, open databases, in-process servers).
+// yieldingMetrics is a sqlite.MetricsHook whose callbacks are decision points of the schedule.
+type yieldingMetrics struct{}
+
+func (yieldingMetrics) OnAppend(time.Duration, error)     { simrt.Yield(siteStoreOp) }
+func (yieldingMetrics) OnRead(time.Duration, int, error)  { simrt.Yield(siteStoreOp) }
+func (yieldingMetrics) OnSaveOffset(time.Duration, error) { simrt.Yield(siteStoreOp) }
+func (yieldingMetrics) OnLoadOffset(time.Duration, error) { simrt.Yield(siteStoreOp) }
+
+// nopLogger satisfies the Logger interfaces of both the sqlite and the durable-streams store.
+type nopLogger struct{}
+
+func (nopLogger) Debug(string, ...any)  {}
+func (nopLogger) Info(string, ...any)   {}
+func (nopLogger) Error(string, ...any)  {}
+func (nopLogger) Printf(string, ...any) {}
+
 type storeEnv struct {
+	migrated map[string]bool
 	dir     string
 	closers []func()
 	servers map[string]*dsServer
@@ -183,10 +206,20 @@ func (e *storeEnv) openStore(cfg StoreCfg, name string) (eventbus.EventStore, er
 		if cfg.StreamBatch > 0 {
 			opts = append(opts, sqlite.WithStreamBatchSize(cfg.StreamBatch))
 		}
+		if cfg.Instr {
+			opts = append(opts, sqlite.WithMetricsHook(yieldingMetrics{}), sqlite.WithLogger(nopLogger{}), sqlite.WithBusyTimeout(250*time.Millisecond))
+			if e.migrated[path] && !cfg.InMemory {
+				opts = append(opts, sqlite.WithAutoMigrate(false))
+			}
+		}
 		st, err := sqlite.New(path, opts...)
 		if err != nil {
 			return nil, err
 		}
+		if e.migrated == nil {
+			e.migrated = map[string]bool{}
+		}
+		e.migrated[path] = true
 		e.closers = append(e.closers, func() { st.Close() })
 		return st, nil
 	case "ds":
@@ -195,7 +228,11 @@ func (e *storeEnv) openStore(cfg StoreCfg, name string) (eventbus.EventStore, er
 			srv = newDSServer(cfg.ChunkSize)
 			e.servers[name] = srv
 		}
-		st, err := dstore.New("http://ds.sim/v1/stream", name, dstore.WithHTTPClient(&http.Client{Transport: srv}), dstore.WithTimeout(30*time.Second))
+		dopts := []dstore.Option{dstore.WithHTTPClient(&http.Client{Transport: srv}), dstore.WithTimeout(30 * time.Second)}
+		if cfg.Instr {
+			dopts = append(dopts, dstore.WithLogger(nopLogger{}))
+		}
+		st, err := dstore.New("http://ds.sim/v1/stream", name, dopts...)
 		if err != nil {
 			return nil, err
 		}
